@@ -137,13 +137,17 @@ def main():
                 res = parse(path)
                 fcp = res.unwrap()
                 per = {}
+                def safe_map(g):
+                    # a generation that raises on a tree another generator has used is a result, not a crash
+                    try:
+                        return file_map(g, fcp, tmp)[0]
+                    except Exception as e:
+                        return {"<exception>": "%s: %s" % (type(e).__name__, str(e)[:200])}
+
                 for g in GENS:
-                    a, _ = file_map(g, fcp, tmp)
-                    b, _ = file_map(g, fcp, tmp)
-                    per[g + "/first"] = a
-                    per[g + "/second"] = b
-                c, _ = file_map("cpp", fcp, tmp)
-                per["cpp/after-others"] = c
+                    per[g + "/first"] = safe_map(g)
+                    per[g + "/second"] = safe_map(g)
+                per["cpp/after-others"] = safe_map("cpp")
                 out["results"][path] = per
     finally:
         shutil.rmtree(tmp, ignore_errors=True)
